@@ -13,6 +13,12 @@ CLAIMED = {
  'C02': ('exploration', 'deterministic simulation of the randomness and target seams: traced momenta/uniforms of every step fed to an independent f64 leapfrog + Metropolis reference, per row, with condition-aware tolerances; reversibility and row-independence metamorphic runs',
          'Real HMC::step on Autodiff<NdArray<f64>> and <f32> against dual targets (burn code for the library, analytic f64 log-density and gradient for the reference): Gaussians d 1..16 with random SPD precision, the library Gaussian/Rosenbrock targets, Student-t, quartic, funnel; 1..32 chains, eps 1e-4..1e3 incl. unstable, L 0..64, histories of 1..10 steps (steps after rejections counted). Per row: proposal = exactly L velocity-Verlet steps from the traced (x, p) (also by target-evaluation count), decision ln u <= H - H_prop from the traced quantities, new row bitwise the proposal or bitwise the old row, no influence between rows (one row perturbed, same draws), integrator reversible.',
          'Trusts: the draw trace (hook H5) reports the tensors actually used; tolerance from the measured amplification of a few-ulp input perturbation through the reference; rows whose tolerance exceeds 5% of the scale and decisions inside the rounding margin are counted, not judged.', '3/C02'),
+ 'C03': ('exploration', 'deterministic simulation of the randomness and target seams: every NUTS transition replayed through an independent f64 implementation of Algorithm 6 fed the traced draws by role, with margin-aware discrete decisions; build_tree also exercised in isolation',
+         'Real NUTSChain::run (f64 and f32 backends) on dual targets (Gaussians d 1..8 with random precision, library Gaussian/Rosenbrock, Student-t, quartic, funnel; very wide Gaussians for trees of depth 11) with step sizes from the start-up heuristic through dual averaging to the frozen value. Per transition the reference consumes the traced momentum, slice level, directions, merge uniforms (recursion order) and accept uniforms and must agree on depth, stopping (U-turn / stopped sub-tree / divergence), number of leapfrogs, n, alpha/n_alpha and the next state; the private build_tree is called through its wrapper for depth 0..10, both directions, slice levels from above the start to 1000 below it.',
+         'Trusts: the draw trace (hook H4); decisions whose margin (from a shadow trajectory started a few ulps away) contains the threshold make the transition ambiguous: counted (well below 1%), not judged.', '3/C03'),
+ 'C04': ('exploration', 'deterministic simulation over call histories: reference dual-averaging recurrence driven by the traced per-transition statistics, freeze invariant across run() calls, positivity/finiteness, eps0 by its defining property',
+         'Histories of 1-4 run() calls on one seeded NUTSChain (the warm-up counter persists), requested rates 0.5..0.99, warm-ups 0..40 (thorough: up to 2000), smooth targets plus half-line/box targets. After every transition: counter, step size in force, H-bar, ln eps and ln eps-bar against the f64 recurrence (gamma .05, t0 10, kappa .75, mu = ln(10 eps) re-derived per call), after warm-up eps == eps-bar bitwise and unchanged for ever, eps and eps-bar positive and finite always; eps0 a power of two at the 1/2-acceptance crossing of the reference integrator; lenient statistical clause on long warm-ups.',
+         'Trusts: the traced acceptance statistic (judged by C03); f32 chains are compared with tolerance 2e-5 and the model is re-synchronised after each transition.', '3/C04'),
  'C05': ('exploration', 'deterministic simulation against a recording Conditional stub: call-history oracle (order, exactly-once, freshest state) + exact kernel invariance on small joint tables; multi-chain runs under seeded schedules',
          'The real Gibbs step runs against a recording conditional that returns unique values: per step exactly d calls, each coordinate once, every given equal to the freshest state, the state after the step exactly the returned values, other chains untouched (checked for the multi-chain sampler under W simulated workers). On random joint tables over {0,1,2}^d (d<=4) the one-step kernel is assembled from the true full conditionals evaluated at the given the library actually passed and pi K = pi is checked exactly.',
          'Trusts: the recording stub; reversed or permuted sweep orders are deliberately not violations (the statement fixes once-each and freshest-state, not the order).', '3/C05'),
